@@ -4,6 +4,7 @@ import (
 	"fmt"
 	"go/token"
 	"go/types"
+	"sort"
 	"strings"
 
 	"golang.org/x/tools/go/ssa"
@@ -24,6 +25,7 @@ func init() {
 		c.R.NotDecided = append(c.R.NotDecided, "numerical exactness of the PTS / NTP mapping; placement of late tracks on the leading track's timeline (value level)")
 		ringTypeRule(c, "C15/DELTA-TYPE", []string{"pkg/rtptime", "pkg/rtpreceiver", "pkg/rtpsender", "pkg/ntp"}, 2)
 		anchorGuardRule(c)
+		anchorTupleRule(c)
 		c15Lock(c)
 	}
 }
@@ -504,6 +506,84 @@ func anchorGuardRule(c *Ctx) {
 			} else {
 				r.OK("C15/ANCHOR-GUARD", construct, p.Pos(st.Pos()), "reached only through the true edge of PTSEqualsDTS")
 			}
+		}
+	}
+}
+
+// anchorTuples: fields that together record ONE correspondence between an RTP
+// timestamp and a clock reading (found by reading the report / mapping
+// functions that combine them; confirmed on today's tree: each tuple is always
+// stored in one basic block).
+var anchorTuples = []struct {
+	pkg, typ string
+	fields   []string
+	why      string
+}{
+	{"pkg/rtpsender", "Sender", []string{"lastRTP", "lastNTP", "lastSystem"}, "Sender.report extrapolates the sender report's (NTP, RTP) pair from these three"},
+	{"pkg/rtpreceiver", "Receiver", []string{"lastRTP", "lastSystem"}, "the interarrival jitter compares the RTP step with the wall-clock step between the same two packets"},
+	{"pkg/rtpreceiver", "Receiver", []string{"lastSenderReportTimeNTP", "lastSenderReportTimeRTP", "lastSenderReportTimeSystem"}, "packetNTPUnsafe maps a packet timestamp to absolute time through the last sender report"},
+	{"pkg/rtptime", "GlobalDecoder", []string{"startSystem", "startPTS"}, "a track that starts later is placed on the leading track's timeline through this pair"},
+}
+
+// anchorTupleRule (C15/ANCHOR-TUPLE; added after the seeded change C15-r2m1
+// was missed): the members of an anchor tuple are always written together.
+func anchorTupleRule(c *Ctx) {
+	p, r := c.P, c.R
+	r.Rule("C15/ANCHOR-TUPLE", "the fields that together record one (RTP timestamp, clock) correspondence are always written together: every basic block that stores one member of a tuple stores all of them (a member updated alone pairs the timestamp of one packet with the time of another)", 6)
+	for _, t := range anchorTuples {
+		var fs []*types.Var
+		ok := true
+		for _, n := range t.fields {
+			f := p.Field(t.pkg, t.typ, n)
+			if f == nil {
+				ok = false
+			}
+			fs = append(fs, f)
+		}
+		if !r.Anchor("C15/ANCHOR-TUPLE", t.typ+".{"+strings.Join(t.fields, ",")+"}", ok) {
+			continue
+		}
+		// blocks storing each member
+		type bk struct {
+			fn *ssa.Function
+			b  *ssa.BasicBlock
+		}
+		stores := map[bk]map[int]bool{}
+		first := map[bk]string{}
+		for i, f := range fs {
+			for _, a := range p.FieldAccesses(f) {
+				st, isSt := a.Instr.(*ssa.Store)
+				if !isSt || !a.Write {
+					continue
+				}
+				k := bk{a.Fn, st.Block()}
+				if stores[k] == nil {
+					stores[k] = map[int]bool{}
+					first[k] = p.Pos(st.Pos())
+				}
+				stores[k][i] = true
+			}
+		}
+		var keys []bk
+		for k := range stores {
+			keys = append(keys, k)
+		}
+		sort.Slice(keys, func(i, j int) bool { return first[keys[i]] < first[keys[j]] })
+		nth := map[string]int{}
+		for _, k := range keys {
+			var missing []string
+			for i, n := range t.fields {
+				if !stores[k][i] {
+					missing = append(missing, n)
+				}
+			}
+			nth[fnShort(k.fn)]++
+			construct := fmt.Sprintf("%s writes {%s} #%d", fnShort(k.fn), strings.Join(t.fields, ","), nth[fnShort(k.fn)])
+			r.Check(len(missing) == 0, "C15/ANCHOR-TUPLE", construct, first[k], "all members stored together ("+t.why+")",
+				"this block updates part of the tuple but not "+strings.Join(missing, ", ")+": "+t.why)
+		}
+		if len(keys) == 0 {
+			r.Fail("C15/ANCHOR-TUPLE", t.typ+" tuple stores", "", "none found")
 		}
 	}
 }
